@@ -245,7 +245,7 @@ func Property(id string) runner.Property {
 	return runner.Property{
 		ID:           id,
 		Level:        "model_checking",
-		QuickBudgetS: 240, ThoroughBudgetS: 3000,
+		QuickBudgetS: 600, ThoroughBudgetS: 3000,
 		Rule: "whole controller (real Builder.Create) against the scripted API server with a tree mixing Subscribe, SubscribeWithFilter, SubscribeForFilter, Clone, CloneWithFilter (nested), a monitor; every node as the one being closed x close points along the workload; every closing mechanism for the root; schedules within d deviations of the default (d=1 quick, 2 thorough); " + rule[id],
 		Assumptions: []string{
 			"client List/Watch return once their context is cancelled (premise of C12; the scripted server honours it)",
